@@ -92,9 +92,10 @@ def for_property(pid, workers=6):
     """kill report of the mutants that are expected to make `pid` fire"""
     exp = expectations()
     sel = [n for n, e in exp.items() if pid in e.get("fires", [])]
-    if not sel:
+    neutral = [n for n, e in exp.items() if not e.get("fires") and n.startswith("neutral_")]
+    if not sel and not neutral:
         return {"mutants": 0, "killed": 0, "missed": [], "skipped": []}
-    out = run(selected=sel, props=[pid], workers=workers)
+    out = run(selected=sel + neutral, props=[pid], workers=workers)
     killed, missed, skipped = [], [], []
     for n in sel:
         o = out.get(n)
@@ -104,7 +105,9 @@ def for_property(pid, workers=6):
             killed.append(n)
         else:
             missed.append(n)
-    return {"mutants": len(sel), "killed": len(killed), "missed": missed, "skipped": skipped, "names": killed}
+    false_alarms = [n for n in neutral if out.get(n, {}).get("status") == "ok" and out[n]["results"][pid]["exit"] == 1]
+    return {"mutants": len(sel), "killed": len(killed), "missed": missed, "skipped": skipped, "names": killed,
+            "behaviour_preserving_refactors": len(neutral), "false_alarms_on_refactors": false_alarms}
 
 
 if __name__ == "__main__":
